@@ -71,6 +71,8 @@ def to_ba(it, x, what='bits'):
             if x.v < 0:
                 raise RaiseEx('ValueError', 'bitarray length must be >= 0')
             return BA([Seg(x.v, '?', None)] if x.v else [])     # bitarray(n): n uninitialised bits
+    if isinstance(x, BinText):
+        return BA(int_segs(x.n, False, x.val))
     if isinstance(x, PBits):
         return BA([Seg(1, 'k', c) if c != '?' else Seg(1, '?', None) for c in x.pat])
     if isinstance(x, ListV):
@@ -401,6 +403,42 @@ def int_segs(n, signed, val):
     if r is not None and not signed and 0 <= r[0] and r[1] < (1 << n) and n > r[1].bit_length() and r[1].bit_length() > 0 and False:
         pass
     return [Seg(n, 'i' if signed else 'u', val)]
+
+
+class BinText:
+    """format(v, '0<n>b') of an integer known to lie in [0, 2^n): a text of exactly n binary digits, the n-bit unsigned image of v"""
+    not_none = True
+
+    def __init__(self, n, val):
+        self.n, self.val = n, val
+
+    def abs_key(self):
+        return ('bintext', self.n, vrepr(self.val))
+
+    def abs_len(self, it):
+        return K(self.n)
+
+    def abs_truth(self, it):
+        return self.n > 0
+
+    def abs_isinstance(self, it, ty):
+        return ty.name == 'str' if isinstance(ty, Builtin) else False
+
+    def __repr__(self):
+        return f'bin{self.n}({vrepr(self.val)})'
+
+
+def format_bits(x, spec):
+    """format(x, spec) for spec '0<n>b' / '<n>b' with zero fill when x is an integer whose range is inside [0, 2^n) -> BinText, else None"""
+    import re as _re
+    m_ = _re.fullmatch(r'0(\d+)b', spec or '')
+    if m_ is None or isinstance(x, K):
+        return None
+    n = int(m_.group(1))
+    r = irange(x)
+    if r is None or r[0] < 0 or r[1] >= (1 << n) or n == 0:
+        return None
+    return BinText(n, x)
 
 
 def int2ba(it, value, length, signed):
@@ -2362,6 +2400,10 @@ def builtin(it, name, args, kw, n):
             if len(e.args) == 1:
                 return builtin(it, 'str', [e.args[0]], {}, n)
         return Term(name, Sym(f'exc:{e.kind}'))
+    if name == 'format' and len(args) == 2 and isinstance(args[1], K) and isinstance(args[1].v, str):
+        r_ = format_bits(args[0], args[1].v)
+        if r_ is not None:
+            return r_
     if name in ('str', 'repr', 'format') and args and isinstance(args[0], Inst) and args[0].cls is not None:
         for dn in (('__str__', '__repr__') if name == 'str' else ('__format__', '__str__', '__repr__') if name == 'format' else ('__repr__',)):
             c, m = it.prog.find_method(args[0].cls, dn)
